@@ -341,6 +341,44 @@ std::string op_contmake(line_t const &L)
   return finish("-", slots(r), {sa.str(), sb.str()}, log);
 }
 
+// ---------------------------------------------------------------- the same container twice; map without reserve
+
+template <typename T>
+std::string op_alg_more(std::string const &_op, line_t const &L)
+{
+  if (_op == "joinself")
+  {
+    need(L.args.size() == 1 && L.par.empty());
+    if constexpr (T::copyable)
+    {
+      auto v{mk_vec<T>(L.args[0])};
+      mark(v);
+      g_log.clear();
+      std::vector<T> const r{
+          L.cat(0) == 'l' ? fcppt::container::join(v, v)
+                          : (need(L.cat(0) == 'c'), fcppt::container::join(std::as_const(v), std::as_const(v)))};
+      event_log const log{g_log};
+      return finish("-", slots(r), {slots(v)}, log);
+    }
+    else
+      throw bad_op{};
+  }
+  if (_op == "algmaplist")
+  {
+    need(L.args.size() == 1 && L.par.empty());
+    std::list<T> l;
+    for (int const i : L.args[0].ids)
+      l.emplace_back(i);
+    for (auto &e : l)
+      mark(e);
+    g_log.clear();
+    std::deque<T> const r{with_cat<true>(L.cat(0), l, [](auto &&c) { return fcppt::algorithm::map<std::deque<T>>(FWD(c), thru{}); })};
+    event_log const log{g_log};
+    return finish("-", slots(r), {slots(l)}, log);
+  }
+  throw bad_op{};
+}
+
 template <typename T>
 bool dispatch(std::string const &_op, line_t const &L, std::string &_out)
 {
@@ -378,6 +416,8 @@ bool dispatch(std::string const &_op, line_t const &L, std::string &_out)
     return (_out = op_moveif<T>(_op, L), true);
   if (_op == "contmake")
     return (_out = op_contmake<T>(L), true);
+  if (_op == "joinself" || _op == "algmaplist")
+    return (_out = op_alg_more<T>(_op, L), true);
   return false;
 }
 }
